@@ -270,8 +270,23 @@ def run(ctx, repo):
             e = e.args[0]
         return e
 
+    _once = {}
+    for a_ in ast.walk(frd):
+        if isinstance(a_, ast.Assign) and len(a_.targets) == 1 and isinstance(a_.targets[0], ast.Name):
+            _once.setdefault(a_.targets[0].id, []).append(a_.value)
+    _once = {k: v[0] for k, v in _once.items() if len(v) == 1}
+
+    def _deref(e):
+        # a temporary assigned once (km = table[fx][x]) stands for its value
+        k = 0
+        while isinstance(e, ast.Name) and e.id in _once and k < 4:
+            e = _once[e.id]
+            k += 1
+        return e
+
     def _cell(e, idx):
         # T[idx][c]
+        e = _deref(e)
         return isinstance(e, ast.Subscript) and isinstance(e.value, ast.Subscript) and isinstance(e.value.slice, ast.Name) and e.value.slice.id == idx
     for v in pf:
         divs = [b for b in ast.walk(v) if isinstance(b, ast.BinOp) and isinstance(b.op, ast.Div)]
@@ -279,8 +294,9 @@ def run(ctx, repo):
             num, den = _strip_float(dv.left), _strip_float(dv.right)
             if isinstance(den, ast.BinOp) and isinstance(den.op, ast.Sub) and _cell(den.left, hi_n) and _cell(den.right, lo_n) \
                     and isinstance(num, ast.BinOp) and isinstance(num.op, ast.Sub) and _cell(num.right, lo_n) and isinstance(_strip_float(num.left), ast.Name) \
-                    and ast.dump(num.right) == ast.dump(den.right) \
-                    and ast.dump(den.left.slice) == ast.dump(den.right.slice) and ast.dump(den.left.value.value) == ast.dump(den.right.value.value):
+                    and ast.dump(_deref(num.right)) == ast.dump(_deref(den.right)) \
+                    and ast.dump(_deref(den.left).slice) == ast.dump(_deref(den.right).slice) \
+                    and ast.dump(_deref(den.left).value.value) == ast.dump(_deref(den.right).value.value):
                 ok = True
     if ok:
         ctx.ok('R2', 'pfac = (d - d[fx]) / (d[fx1] - d[fx])')
@@ -379,7 +395,47 @@ def run(ctx, repo):
             elif any(isinstance(c.ops[0], (ast.Lt, ast.LtE)) and isinstance(c.left, ast.Subscript) for c in cs):
                 scan = n
     if scan is None:
-        raise AnalysisError('find_row_by_distance: scan loop not found')
+        # the scan is not a while loop (for / else, next(...)): decided by folding find_row_by_distance on the bundled tables over the
+        # complete set of orderings of the target against the tabulated distances - every tabulated distance, one metre past each,
+        # and past the last - the result must bracket the target, and be the last row twice beyond the table
+        from .. import fold as _foldr
+        fc_ = _foldr.FuncConst(frd, dict(repo.folded(AGE)[0]))
+        bad_r, n_r = None, 0
+        try:
+            for rel in TABLES:
+                d_ = repo.json(rel)
+                for g_ in ('m', 'f'):
+                    rows_ = d_.get(g_) or []
+                    codes_ = [r[0] for r in rows_]
+                    if '50' not in codes_:
+                        continue
+                    run_ = [r[1] for r in rows_[codes_.index('50'):] if isinstance(r[1], (int, float))]
+                    probes = sorted({round(x * 1000) for x in run_} | {round(x * 1000) + 1 for x in run_} | {round(max(run_) * 1000) + 5000})
+                    for dm in probes:
+                        if dm < round(min(run_) * 1000):
+                            continue
+                        n_r += 1
+                        r_ = _foldr.Folder().call(fc_, [None, dm, rows_], {})
+                        fx_, fx1_ = r_[0], r_[1]
+                        km = dm / 1000.0
+                        if km > max(run_):
+                            ok_ = fx_ == fx1_ == len(rows_) - 1
+                        else:
+                            ok_ = rows_[fx_][1] <= km <= rows_[fx1_][1] and 0 <= fx1_ - fx_ <= 1
+                        if not ok_ and bad_r is None:
+                            bad_r = (rel, g_, dm, (fx_, fx1_))
+        except Exception as e_:
+            raise AnalysisError('find_row_by_distance: scan loop not found and the function does not fold (%s: %s)' % (type(e_).__name__, e_))
+        ctx.count('find_row_by_distance folded on (table, distance) probes', n_r)
+        if bad_r:
+            ctx.finding('R9', '%s::AgeGrader.find_row_by_distance::scan does not cover the whole table' % AGE, AGE, frd.lineno,
+                        'for %s %s and %d m find_row_by_distance returns the rows %s, which do not bracket the distance (or are not the last row '
+                        'beyond the table)' % (bad_r[0].split('/')[-1], bad_r[1], bad_r[2], bad_r[3]), bad_r[2])
+        else:
+            ctx.ok('R9', 'find_row_by_distance brackets every probe distance and clamps to the last row beyond the table (%d folded calls)' % n_r)
+        ctx.info('R6: the scan of find_row_by_distance is not a while loop; the lower-end arm is not decided syntactically (R5 and R9 cover the ends)')
+        ctx.ok('R6', 'lower end: decided through R5 (neighbour without a distance) on this form')
+        return _after_scan_rules(ctx, repo, mod, cf, frd, envc, roles_cf)
     ivars = [st.target.id for st in scan.body if isinstance(st, ast.AugAssign) and isinstance(st.target, ast.Name)]
     if not ivars:
         raise AnalysisError('find_row_by_distance: scan index not found')
@@ -470,6 +526,10 @@ def run(ctx, repo):
                     "a bare distance such as '10500' or '250000'")
     else:
         ctx.ok('R9', 'the scan runs to len(%s) with no other exit' % tparam)
+    return _after_scan_rules(ctx, repo, mod, cf, frd, envc, roles_cf)
+
+
+def _after_scan_rules(ctx, repo, mod, cf, frd, envc, roles_cf):
     # ---- R10 in the fallback for untabulated distances every answer is computed from the neighbours' factors: each return of the
     # handler is the interpolated value or a recursive calculate_factor (no constant, no answer that ignores the neighbours)
     hnd = [h for t_ in ast.walk(cf) if isinstance(t_, ast.Try) for h in t_.handlers]
